@@ -57,6 +57,7 @@ class Ctx:
         self.emissions = None      # ghost NLP log, installed by the casadi model
         self.notes = []
         self.loop_stack = []
+        self.subst = []
 
     # ---- path condition -------------------------------------------------------------
     def assume(self, f, why=None):
@@ -68,8 +69,38 @@ class Ctx:
             return
         self.pc.append(f)
         self.solver.add(f)
+        self._learn_equality(f)
         if why:
             self.assumptions.append(why)
+
+    def _learn_equality(self, f):
+        """integer equalities  const == term  on the path are kept as a substitution, so that
+        terms that are equal modulo them become syntactically equal (keeps big nonlinear
+        equalities away from the solver)"""
+        if not z3.is_eq(f):
+            return
+        a, b = f.children()
+        if a.sort() != z3.IntSort():
+            return
+        def is_var(t):
+            return z3.is_const(t) and t.decl().kind() == z3.Z3_OP_UNINTERPRETED
+        if is_var(b) and not is_var(a):
+            a, b = b, a
+        if is_var(a) and is_var(b):
+            # replace the younger one (fresh names carry an increasing counter after '!')
+            def age(t):
+                n = t.decl().name()
+                return int(n.split("!")[-1]) if "!" in n and n.split("!")[-1].isdigit() else -1
+            if age(b) > age(a):
+                a, b = b, a
+        if is_var(a) and not any(a.eq(x) for x in _subterms_consts(b)):
+            self.subst.append((a, b))
+
+    def normalize(self, term):
+        """apply the learnt integer equalities to a z3 term"""
+        for a, b in reversed(self.subst):
+            term = z3.substitute(term, (a, b))
+        return term
 
     def feasible(self, extra=None):
         self.solver.push()
@@ -92,6 +123,8 @@ class Ctx:
         if z3.is_false(cond):
             return False
         can_t = self.feasible(cond)
+        if not can_t:
+            return False            # the path condition is satisfiable (invariant), so the other side is
         can_f = self.feasible(z3.Not(cond))
         if can_t and can_f:
             i = len(self.trace)
@@ -108,6 +141,18 @@ class Ctx:
         if can_f:
             return False
         raise PathEnd()
+
+    def choose(self, n):
+        """structural fork (proof-rule split, not a semantic branch): all n alternatives are explored"""
+        i = len(self.trace)
+        if i < len(self.prefix):
+            d = self.prefix[i]
+        else:
+            d = 0
+            for alt in range(1, n):
+                self.pending.append(self.trace + [alt])
+        self.trace.append(d)
+        return d
 
     # ---- obligations ----------------------------------------------------------------
     def prove(self, name, claim, detail=None):
@@ -156,6 +201,19 @@ class Ctx:
 
     def unknown(self, name, detail=None):
         self.obligations.append(Obligation(name, "unknown", path=list(self.trace), detail=detail))
+
+
+def _subterms_consts(t):
+    out, stack, seen = [], [t], set()
+    while stack:
+        x = stack.pop()
+        if x.get_id() in seen:
+            continue
+        seen.add(x.get_id())
+        if z3.is_const(x) and x.decl().kind() == z3.Z3_OP_UNINTERPRETED:
+            out.append(x)
+        stack.extend(x.children())
+    return out
 
 
 def _model_dict(model):
@@ -207,6 +265,39 @@ class Result:
         return out
 
 
+def isolated(fn, label="check"):
+    """Run fn() (a pure check: it may fork and record obligations but must not change program
+    state) in its own fork scope under the current path condition.  All its local paths are
+    explored here; the calling path continues unforked."""
+    outer = ctx()
+    work = [[]]
+    n = 0
+    while work:
+        prefix = work.pop()
+        c = Ctx(prefix)
+        for f in outer.pc:
+            c.pc.append(f)
+            c.solver.add(f)
+        c.subst = list(outer.subst)
+        _CTX[0] = c
+        try:
+            try:
+                fn()
+            except PathEnd:
+                pass
+            except Undecided as e:
+                c.unknown("%s:engine-limit" % label, str(e))
+        finally:
+            _CTX[0] = outer
+        outer.obligations.extend(c.obligations)
+        outer.assumptions.extend(c.assumptions)
+        work.extend(c.pending)
+        n += 1
+        if n > 2000:
+            outer.unknown("%s:path-budget" % label, "more than 2000 local paths")
+            break
+
+
 def explore(fn, max_paths=4000):
     """Run fn() once per feasible path.  fn receives nothing and may return a value."""
     res = Result()
@@ -222,7 +313,10 @@ def explore(fn, max_paths=4000):
             except PathEnd:
                 pass
             except Undecided as e:
-                res.undecided.append((list(c.trace), str(e)))
+                import traceback
+                fr = [f for f in traceback.extract_tb(e.__traceback__) if "/vc/core.py" not in f.filename]
+                where = " <- ".join("%s:%d(%s)" % (f.filename.split("/")[-1], f.lineno, f.name) for f in reversed(fr[-4:]))
+                res.undecided.append((list(c.trace), "%s [%s]" % (e, where)))
         finally:
             _CTX[0] = None
         res.paths += 1
